@@ -42,26 +42,35 @@ func init() {
 }
 
 type c09sOp struct {
-	K string `json:"k"`           // cpu | arr | done | churn | adv
+	K string `json:"k"`           // cpu | arr | done | churn | storm | adv
+	T int    `json:"t,omitempty"` // target instance (0, or 1 = the twin)
 	V int64  `json:"v,omitempty"` // cpu: reading (same unit as the threshold)
-	N int    `json:"n,omitempty"` // arr: burst size; done/churn: how many
+	N int    `json:"n,omitempty"` // arr: burst size; done/churn/storm: how many
 	I int    `json:"i,omitempty"` // done: index into the in-flight list (mod len)
-	P bool   `json:"p,omitempty"` // done/churn: Pass (true) or Fail
-	D int64  `json:"d,omitempty"` // adv: nanoseconds
+	P bool   `json:"p,omitempty"` // done/churn/storm: Pass (true) or Fail
+	D int64  `json:"d,omitempty"` // adv: nanoseconds; storm: hold time of every request
 	G string `json:"g,omitempty"` // adv: generator label (informational)
 }
 
-type c09sCase struct {
-	Bk   int      `json:"bk"`  // buckets
-	BdMs int64    `json:"bd"`  // bucket duration in ms (divides 1000)
-	Thr  int64    `json:"thr"` // CPU threshold
-	EndP bool     `json:"endp"`
-	Ops  []c09sOp `json:"ops"`
+// c09sTwin: a second shedder alive in the same process with other settings.
+// Opt says which options it is constructed with; the others take the package
+// defaults (5 s window, 50 buckets, threshold 900).
+type c09sTwin struct {
+	Bk   int    `json:"bk"`
+	BdNs int64  `json:"bdns"`
+	Thr  int64  `json:"thr"`
+	Opt  string `json:"opt"` // all | thr | win | none
 }
 
-type c09sPass struct {
-	bucket int64
-	lat    int64 // ns
+type c09sCase struct {
+	Bk   int       `json:"bk"`             // buckets
+	BdMs int64     `json:"bd"`             // bucket duration in ms
+	BdNs int64     `json:"bdns,omitempty"` // bucket duration in ns (overrides BdMs)
+	Thr  int64     `json:"thr"`            // CPU threshold
+	Opt  string    `json:"opt,omitempty"`  // "" = all three options | rev = reversed order | none = no options (defaults)
+	Twin *c09sTwin `json:"twin,omitempty"`
+	EndP bool      `json:"endp"`
+	Ops  []c09sOp  `json:"ops"`
 }
 
 type c09sFlight struct {
@@ -69,34 +78,44 @@ type c09sFlight struct {
 	p     Promise
 }
 
+type c09sAgg struct {
+	n       int64
+	exactNs int64
+	ceilMs  int64
+}
+
 const c09sCool = int64(time.Second)
 
-// c09sCap computes the capacity interval from the reference list of passes.
-func c09sCap(passes []c09sPass, cur, bk, bdMs int64) (capLo, capHi int64, visible bool) {
-	type agg struct {
-		n       int64
-		exactNs int64
-		ceilMs  int64
-	}
-	bs := map[int64]*agg{}
-	for _, p := range passes {
-		if p.bucket > cur-bk && p.bucket < cur { // current bucket excluded (IgnoreCurrentBucket)
-			a := bs[p.bucket]
-			if a == nil {
-				a = &agg{}
-				bs[p.bucket] = a
-			}
-			a.n++
-			a.exactNs += p.lat
-			a.ceilMs += (p.lat + int64(time.Millisecond) - 1) / int64(time.Millisecond)
-		}
-	}
-	if len(bs) == 0 {
-		return 1, 1, false
-	}
+// c09sModel is the reference of ONE shedder instance.
+type c09sModel struct {
+	name     string
+	bk, bd   int64
+	thr      int64
+	shd      Shedder
+	sh       *adaptiveShedder
+	lastOver int64
+	ewma     float64
+	flights  []c09sFlight
+	aggs     map[int64]*c09sAgg // passes per bucket index, pruned when older than the window
+	anyPass  bool
+	rejected bool
+}
+
+// capacity interval from the reference buckets. Buckets per second is taken as
+// floor(1s/width) for capLo and ceil(1s/width) for capHi (equal when the width
+// divides 1 s); see the file comment for the latency readings.
+func (m *c09sModel) capacity(cur int64) (capLo, capHi int64, visible bool) {
 	var maxPass int64
 	rLo, rHi := math.Inf(1), math.Inf(1)
-	for _, a := range bs {
+	for b, a := range m.aggs {
+		if b <= cur-m.bk {
+			delete(m.aggs, b)
+			continue
+		}
+		if b >= cur { // current bucket excluded (IgnoreCurrentBucket)
+			continue
+		}
+		visible = true
 		if a.n > maxPass {
 			maxPass = a.n
 		}
@@ -106,31 +125,83 @@ func c09sCap(passes []c09sPass, cur, bk, bdMs int64) (capLo, capHi int64, visibl
 		rLo = math.Min(rLo, math.Min(exact, round))
 		rHi = math.Min(rHi, math.Max(ceil, round))
 	}
-	rLo = math.Min(rLo, 1000) // an implementation may cap the latency estimate at 1 s
-	w := float64(1000 / bdMs)
-	xLo := float64(maxPass) * w * rLo / 1000
-	xHi := float64(maxPass) * w * rHi / 1000
-	capLo = int64(math.Floor(xLo*(1-1e-9) - 1e-9))
-	capHi = int64(math.Floor(xHi*(1+1e-9) + 1e-9))
-	if capLo < 1 {
-		capLo = 1
+	if !visible {
+		return 1, 1, false
 	}
-	if capHi < 1 {
-		capHi = 1
+	rLo = math.Min(rLo, 1000) // an implementation may cap the latency estimate at 1 s
+	wLo := float64(int64(time.Second) / m.bd)
+	wHi := wLo
+	if int64(time.Second)%m.bd != 0 {
+		wHi++
+	}
+	xLo := float64(maxPass) * wLo * rLo / 1000
+	xHi := float64(maxPass) * wHi * rHi / 1000
+	capLo, capHi = 1, 1
+	if f := math.Floor(xLo*(1-1e-9) - 1e-9); f > 1 {
+		capLo = int64(math.Min(f, 1<<62))
+	}
+	if f := math.Floor(xHi*(1+1e-9) + 1e-9); f > 1 {
+		capHi = int64(math.Min(f, 1<<62))
 	}
 	return capLo, capHi, true
 }
 
+func c09sBd(bdMs, bdNs int64) int64 {
+	if bdNs > 0 {
+		return bdNs
+	}
+	return bdMs * int64(time.Millisecond)
+}
+
 func c09sInterp(t *testing.T, c c09sCase) (v kit.Verdict) {
-	if c.Bk < 1 || c.BdMs < 1 || 1000%c.BdMs != 0 {
+	if c.Opt == "none" {
+		c.Bk, c.BdMs, c.BdNs, c.Thr = defaultBuckets, 0, int64(defaultWindow)/defaultBuckets, defaultCpuThreshold
+	}
+	bd0 := c09sBd(c.BdMs, c.BdNs)
+	if c.Bk < 1 || c.Bk > 1<<16 || bd0 < 1 || bd0 > int64(24*time.Hour) || len(c.Ops) > 4096 {
 		v.Excluded = true
 		return v
 	}
-	for _, o := range c.Ops {
-		if o.D < 0 || o.N < 0 || o.I < 0 {
+	if tw := c.Twin; tw != nil {
+		switch tw.Opt {
+		case "all":
+		case "thr":
+			tw.Bk, tw.BdNs = defaultBuckets, int64(defaultWindow)/defaultBuckets
+		case "win":
+			tw.Thr = defaultCpuThreshold
+		case "none":
+			tw.Bk, tw.BdNs, tw.Thr = defaultBuckets, int64(defaultWindow)/defaultBuckets, defaultCpuThreshold
+		default:
 			v.Excluded = true
 			return v
 		}
+		if tw.Bk < 1 || tw.Bk > 1<<16 || tw.BdNs < 1 || tw.BdNs > int64(24*time.Hour) {
+			v.Excluded = true
+			return v
+		}
+	}
+	var total, work int64
+	for _, o := range c.Ops {
+		if o.D < 0 || o.N < 0 || o.I < 0 || o.T < 0 || o.T > 1 || o.T == 1 && c.Twin == nil || o.N > 1<<17 {
+			v.Excluded = true
+			return v
+		}
+		d := o.D
+		if o.K == "storm" {
+			d = c09sSatMul(o.D, int64(o.N))
+		}
+		if o.K == "storm" || o.K == "adv" {
+			if d > c09sMaxEl-total {
+				v.Excluded = true
+				return v
+			}
+			total += d
+		}
+		work += int64(o.N)
+	}
+	if work > 1<<18 {
+		v.Excluded = true
+		return v
 	}
 	var fail string
 	classes := map[string]bool{}
@@ -140,7 +211,6 @@ func c09sInterp(t *testing.T, c c09sCase) (v kit.Verdict) {
 	enabled.Set(true)
 
 	res := kit.Bubble(t, func() {
-		bd := c.BdMs * int64(time.Millisecond)
 		var reading int64
 		checkerCalls := 0
 		systemOverloadChecker = func(thr int64) bool {
@@ -148,38 +218,61 @@ func c09sInterp(t *testing.T, c c09sCase) (v kit.Verdict) {
 			return reading >= thr
 		}
 		start := time.Now()
-		shd := NewAdaptiveShedder(WithWindow(time.Duration(bd*int64(c.Bk))), WithBuckets(c.Bk), WithCpuThreshold(c.Thr))
-		sh, ok := shd.(*adaptiveShedder)
-		if !ok {
-			fail = fmt.Sprintf("NewAdaptiveShedder returned %T", shd)
+		var el int64
+		mk := func(name string, bk int, bd, thr int64, opt string) *c09sModel {
+			win := WithWindow(time.Duration(bd * int64(bk)))
+			var opts []ShedderOption
+			switch opt {
+			case "", "all":
+				opts = []ShedderOption{win, WithBuckets(bk), WithCpuThreshold(thr)}
+			case "rev":
+				opts = []ShedderOption{WithCpuThreshold(thr), WithBuckets(bk), win}
+			case "thr":
+				opts = []ShedderOption{WithCpuThreshold(thr)}
+			case "win":
+				opts = []ShedderOption{WithBuckets(bk), win}
+			case "none":
+			}
+			classes["options-"+name+"-"+opt] = true
+			shd := NewAdaptiveShedder(opts...)
+			sh, ok := shd.(*adaptiveShedder)
+			if !ok {
+				fail = fmt.Sprintf("NewAdaptiveShedder returned %T", shd)
+				return nil
+			}
+			return &c09sModel{name: name, bk: int64(bk), bd: bd, thr: thr, shd: shd, sh: sh, lastOver: -1, aggs: map[int64]*c09sAgg{}}
+		}
+		ms := []*c09sModel{mk("main", c.Bk, bd0, c.Thr, c.Opt)}
+		if ms[0] == nil {
 			return
 		}
-		var (
-			el       int64
-			lastOver int64 = -1
-			ewma     float64
-			flights  []c09sFlight
-			passes   []c09sPass
-			rejected bool // some arrival has been rejected before
-		)
+		if c.Twin != nil {
+			tw := mk("twin", c.Twin.Bk, c.Twin.BdNs, c.Twin.Thr, c.Twin.Opt)
+			if tw == nil {
+				return
+			}
+			ms = append(ms, tw)
+		}
 		checkD := func(what string) bool {
-			if got := atomic.LoadInt64(&sh.flying); got != int64(len(flights)) {
-				fail = fmt.Sprintf("rule D: %s: in-flight counter is %d, admitted-and-unreported requests %d", what, got, len(flights))
-				return false
+			for _, m := range ms { // every instance: an operation on one must not move the other
+				if got := atomic.LoadInt64(&m.sh.flying); got != int64(len(m.flights)) {
+					fail = fmt.Sprintf("rule D: %s: in-flight counter of the %s shedder is %d, admitted-and-unreported requests %d", what, m.name, got, len(m.flights))
+					return false
+				}
 			}
 			return true
 		}
-		arrive := func(what string) bool {
+		arrive := func(m *c09sModel, what func() string) bool {
 			if got := int64(time.Since(start)); got != el {
 				fail = fmt.Sprintf("harness: virtual clock at %d, model at %d", got, el)
 				return false
 			}
-			over := reading >= c.Thr
-			recent := lastOver >= 0 && el-lastOver < c09sCool
-			flying := int64(len(flights))
-			eps := 1e-9 * (1 + ewma)
-			fLo, fHi := int64(math.Floor(ewma-eps)), int64(math.Floor(ewma+eps))
-			capLo, capHi, vis := c09sCap(passes, el/bd, int64(c.Bk), c.BdMs)
+			over := reading >= m.thr
+			recent := m.lastOver >= 0 && el-m.lastOver < c09sCool
+			flying := int64(len(m.flights))
+			eps := 1e-9 * (1 + m.ewma)
+			fLo, fHi := int64(math.Floor(m.ewma-eps)), int64(math.Floor(m.ewma+eps))
+			capLo, capHi, vis := m.capacity(el / m.bd)
 			if vis {
 				classes["cap-from-data"] = true
 				if capLo != capHi {
@@ -188,23 +281,28 @@ func c09sInterp(t *testing.T, c c09sCase) (v kit.Verdict) {
 				if capLo > 1 {
 					classes["cap>1"] = true
 				}
-			} else if len(passes) > 0 {
+			} else if m.anyPass {
 				classes["data-expired-or-current-only"] = true
 			}
 			before := checkerCalls
-			p, err := shd.Allow()
+			p, err := m.shd.Allow()
 			if checkerCalls == before {
 				classes["cpu-not-read"] = true
 			}
-			state := fmt.Sprintf("at +%dns cpu=%d thr=%d lastOverloadSeen=%d in-flight=%d smoothed=%.6f capacity=[%d,%d] data=%v",
-				el, reading, c.Thr, lastOver, flying, ewma, capLo, capHi, vis)
+			state := func() string {
+				return fmt.Sprintf("%s shedder (%d buckets of %dns, threshold %d) at +%dns cpu=%d lastOverloadSeen=%d in-flight=%d smoothed=%.6f capacity=[%d,%d] data=%v",
+					m.name, m.bk, m.bd, m.thr, el, reading, m.lastOver, flying, m.ewma, capLo, capHi, vis)
+			}
 			if err != nil {
 				if err != ErrServiceOverloaded {
-					fail = fmt.Sprintf("%s: Allow returned unexpected error %v", what, err)
+					fail = fmt.Sprintf("%s: Allow returned unexpected error %v", what(), err)
 					return false
 				}
 				rejects++
 				classes["reject"] = true
+				if m.name == "twin" {
+					classes["reject-twin"] = true
+				}
 				if over {
 					classes["reject-overloaded-now"] = true
 				} else {
@@ -219,17 +317,17 @@ func c09sInterp(t *testing.T, c c09sCase) (v kit.Verdict) {
 					classes["reject-cap-undefined"] = true
 				}
 				if !over && !recent {
-					fail = fmt.Sprintf("rule A: %s: rejected although CPU is below the threshold and no overload was observed during the last second; %s", what, state)
+					fail = fmt.Sprintf("rule A: %s: rejected although CPU is below the threshold and no overload was observed during the last second; %s", what(), state())
 					return false
 				}
 				if !(flying > capLo && fHi > capLo) {
-					fail = fmt.Sprintf("rule B: %s: rejected although in-flight and smoothed in-flight do not both exceed the capacity; %s", what, state)
+					fail = fmt.Sprintf("rule B: %s: rejected although in-flight and smoothed in-flight do not both exceed the capacity; %s", what(), state())
 					return false
 				}
 				if over {
-					lastOver = el
+					m.lastOver = el
 				}
-				rejected = true
+				m.rejected = true
 				return true
 			}
 			// admitted
@@ -238,9 +336,9 @@ func c09sInterp(t *testing.T, c c09sCase) (v kit.Verdict) {
 				if flying > capHi && fLo > capHi {
 					classes["A-applies-high-load"] = true
 				}
-				if lastOver >= 0 && el-lastOver == c09sCool {
+				if m.lastOver >= 0 && el-m.lastOver == c09sCool {
 					classes["A-exactly-1s"] = true
-					if rejected && flying > capHi && fLo > capHi {
+					if m.rejected && flying > capHi && fLo > capHi {
 						classes["A-exactly-1s-after-reject-high-load"] = true
 					}
 				}
@@ -252,67 +350,115 @@ func c09sInterp(t *testing.T, c c09sCase) (v kit.Verdict) {
 					classes["admit-overloaded-one-count-high"] = true
 				}
 				if vis && flying > capHi && fLo > capHi {
-					fail = fmt.Sprintf("rule C: %s: admitted although CPU is at/above the threshold and both in-flight counts exceed the capacity; %s", what, state)
+					fail = fmt.Sprintf("rule C: %s: admitted although CPU is at/above the threshold and both in-flight counts exceed the capacity; %s", what(), state())
 					return false
 				}
 			} else if recent {
 				classes["admit-within-cooloff"] = true
 			}
 			if over {
-				lastOver = el
+				m.lastOver = el
 			}
-			flights = append(flights, c09sFlight{start: el, p: p})
+			m.flights = append(m.flights, c09sFlight{start: el, p: p})
 			return true
 		}
-		complete := func(i int, pass bool) {
-			f := flights[i]
-			flights = append(flights[:i], flights[i+1:]...)
+		complete := func(m *c09sModel, i int, pass bool) {
+			f := m.flights[i]
+			m.flights = append(m.flights[:i], m.flights[i+1:]...)
 			if pass {
 				f.p.Pass()
-				passes = append(passes, c09sPass{bucket: el / bd, lat: el - f.start})
+				lat := el - f.start
+				a := m.aggs[el/m.bd]
+				if a == nil {
+					a = &c09sAgg{}
+					m.aggs[el/m.bd] = a
+				}
+				a.n++
+				a.exactNs += lat
+				a.ceilMs += lat / int64(time.Millisecond)
+				if lat%int64(time.Millisecond) != 0 {
+					a.ceilMs++
+				}
+				m.anyPass = true
+				if lat == 0 {
+					classes["latency-0"] = true
+				} else if lat >= int64(time.Hour) {
+					classes["latency>=1h"] = true
+				} else if lat > int64(time.Second) {
+					classes["latency>1s"] = true
+				}
 			} else {
 				f.p.Fail()
 				classes["fail-reported"] = true
 			}
-			ewma = ewma*0.9 + float64(len(flights))*0.1
+			m.ewma = m.ewma*0.9 + float64(len(m.flights))*0.1
 		}
+		completions := 0
 		for i, o := range c.Ops {
 			what := fmt.Sprintf("op %d %s", i, o.K)
+			m := ms[o.T]
 			switch o.K {
 			case "cpu":
 				reading = o.V
 			case "arr":
 				for j := 0; j < o.N; j++ {
-					if !arrive(fmt.Sprintf("%s arrival %d", what, j)) || !checkD(what) {
+					j := j
+					if !arrive(m, func() string { return fmt.Sprintf("%s arrival %d", what, j) }) || !checkD(what) {
 						return
 					}
 				}
 			case "done":
 				for j := 0; j < o.N; j++ {
-					if len(flights) == 0 {
+					if len(m.flights) == 0 {
 						classes["done-noop"] = true
 						break
 					}
-					complete(o.I%len(flights), o.P)
+					complete(m, o.I%len(m.flights), o.P)
+					completions++
 					if !checkD(what) {
 						return
 					}
 				}
 			case "churn":
 				for j := 0; j < o.N; j++ {
-					if len(flights) > 0 {
-						complete(0, o.P)
+					j := j
+					if len(m.flights) > 0 {
+						complete(m, 0, o.P)
+						completions++
 						if !checkD(what) {
 							return
 						}
 					}
-					if !arrive(fmt.Sprintf("%s arrival %d", what, j)) || !checkD(what) {
+					if !arrive(m, func() string { return fmt.Sprintf("%s arrival %d", what, j) }) || !checkD(what) {
 						return
+					}
+				}
+			case "storm":
+				// long-lived instance: N cycles of arrive / hold D / complete the OLDEST request,
+				// whatever else is in flight stays in flight across the churn
+				for j := 0; j < o.N; j++ {
+					j := j
+					if !arrive(m, func() string { return fmt.Sprintf("%s cycle %d", what, j) }) || !checkD(what) {
+						return
+					}
+					if o.D > 0 {
+						time.Sleep(time.Duration(o.D))
+						el += o.D
+					}
+					if len(m.flights) > 0 {
+						complete(m, 0, o.P || j%7 != 0)
+						completions++
+						if !checkD(what) {
+							return
+						}
 					}
 				}
 			case "adv":
 				time.Sleep(time.Duration(o.D))
 				el += o.D
+				if o.D >= int64(30*24*time.Hour) {
+					classes["adv>=30d"] = true
+				}
 			default:
 				fail = "harness: unknown op " + o.K
 				return
@@ -322,16 +468,43 @@ func c09sInterp(t *testing.T, c c09sCase) (v kit.Verdict) {
 			}
 		}
 		// every admitted request reports: the counter must return to zero
-		for len(flights) > 0 {
-			complete(len(flights)-1, c.EndP)
-			if !checkD("final completion") {
-				return
+		for _, m := range ms {
+			for len(m.flights) > 0 {
+				complete(m, len(m.flights)-1, c.EndP)
+				if !checkD("final completion") {
+					return
+				}
+			}
+			if got := atomic.LoadInt64(&m.sh.flying); got != 0 {
+				fail = fmt.Sprintf("rule D: in-flight counter of the %s shedder is %d after every admitted request has reported", m.name, got)
 			}
 		}
-		if got := atomic.LoadInt64(&sh.flying); got != 0 {
-			fail = fmt.Sprintf("rule D: in-flight counter is %d after every admitted request has reported", got)
+		switch {
+		case completions >= 10000:
+			classes["completions>=1e4"] = true
+		case completions >= 1000:
+			classes["completions>=1e3"] = true
 		}
 	})
+	if c.Twin != nil {
+		classes["twin"] = true
+	}
+	switch {
+	case int64(time.Second)%bd0 != 0 && bd0 < int64(time.Second):
+		classes["bucket-width-not-dividing-1s"] = true
+	case bd0 > int64(time.Second):
+		classes["bucket-width>1s"] = true
+	case bd0 < int64(time.Millisecond):
+		classes["bucket-width<1ms"] = true
+	}
+	if c.Bk >= 100 {
+		classes["buckets>=100"] = true
+	}
+	if c.Thr <= 0 {
+		classes["threshold<=0"] = true
+	} else if c.Thr > 1000 {
+		classes["threshold>1000"] = true
+	}
 	v.NonTrivial = rejects > 0 && admitsOver > 0
 	for k := range classes {
 		v.Classes = append(v.Classes, k)
@@ -345,41 +518,97 @@ func c09sInterp(t *testing.T, c c09sCase) (v kit.Verdict) {
 	return v
 }
 
+const c09sMaxEl = int64(250 * 365 * 24 * time.Hour)
+
+func c09sSatMul(a, b int64) int64 {
+	if a > 0 && b > math.MaxInt64/a {
+		return math.MaxInt64
+	}
+	return a * b
+}
+
+// bucket widths in ns: divisors of 1 s from 1 us to 1 s, widths that do not divide 1 s, widths above 1 s
+var c09sWidths = []int64{
+	10e6, 20e6, 50e6, 100e6, 100e6, 100e6, 200e6, 250e6, 500e6, 1e9,
+	1e3, 1e5, 1e6, 2e6, 5e6,
+	3e6, 7e6, 30e6, 300e6, 333333333, 999999999, 1e9 - 1,
+	1e9 + 1, 2e9, 60e9,
+}
+
 func c09sGen(rt *rapid.T) c09sCase {
 	c := c09sCase{
-		Bk:   rapid.SampledFrom([]int{1, 2, 3, 5, 10, 20, 50}).Draw(rt, "bk"),
-		BdMs: rapid.SampledFrom([]int64{10, 20, 50, 100, 100, 200, 250, 500, 1000}).Draw(rt, "bd"),
-		Thr:  rapid.SampledFrom([]int64{1, 500, 900, 1000}).Draw(rt, "thr"),
+		Bk:   rapid.SampledFrom([]int{1, 2, 3, 5, 10, 10, 20, 50, 50, 100, 255, 256, 257, 1000}).Draw(rt, "bk"),
+		BdNs: rapid.SampledFrom(c09sWidths).Draw(rt, "bd"),
+		Thr:  rapid.SampledFrom([]int64{1, 500, 900, 900, 1000, 0, -1, 1 << 31, math.MaxInt64}).Draw(rt, "thr"),
+		Opt:  rapid.SampledFrom([]string{"", "", "", "rev", "none"}).Draw(rt, "opt"),
 		EndP: rapid.Bool().Draw(rt, "endp"),
 	}
-	bd := c.BdMs * int64(time.Millisecond)
-	bk := int64(c.Bk)
+	if c.Opt == "none" {
+		c.Bk, c.BdNs, c.Thr = defaultBuckets, int64(defaultWindow)/defaultBuckets, defaultCpuThreshold
+	}
+	type inst struct {
+		bd, bk, thr, lastOver int64
+	}
+	insts := []*inst{{bd: c.BdNs, bk: int64(c.Bk), thr: c.Thr, lastOver: -1}}
+	if rapid.IntRange(0, 3).Draw(rt, "twin") == 0 {
+		tw := &c09sTwin{
+			Bk:   rapid.SampledFrom([]int{1, 5, 10, 50}).Draw(rt, "tbk"),
+			BdNs: rapid.SampledFrom([]int64{10e6, 50e6, 100e6, 1e9}).Draw(rt, "tbd"),
+			Thr:  rapid.SampledFrom([]int64{1, 500, 900, 1000}).Draw(rt, "tthr"),
+			Opt:  rapid.SampledFrom([]string{"all", "thr", "thr", "win", "none"}).Draw(rt, "topt"),
+		}
+		switch tw.Opt {
+		case "thr":
+			tw.Bk, tw.BdNs = defaultBuckets, int64(defaultWindow)/defaultBuckets
+		case "win":
+			tw.Thr = defaultCpuThreshold
+		case "none":
+			tw.Bk, tw.BdNs, tw.Thr = defaultBuckets, int64(defaultWindow)/defaultBuckets, defaultCpuThreshold
+		}
+		c.Twin = tw
+		insts = append(insts, &inst{bd: tw.BdNs, bk: int64(tw.Bk), thr: tw.Thr, lastOver: -1})
+	}
 	n := rapid.IntRange(1, 60).Draw(rt, "nops")
 	var el int64
-	var lastOver int64 = -1
 	var reading int64
+	storms := 0
+	stormy := rapid.IntRange(0, 39).Draw(rt, "stormy") == 0 // long-lived instance: rare, it costs 10^3..10^4 cycles
 	// optional warm-up: some passes in a completed bucket, so that the capacity is estimated from data
-	for w := rapid.IntRange(0, 2).Draw(rt, "warm"); w > 0; w-- {
-		k := rapid.IntRange(1, 8).Draw(rt, "wn")
-		lat := rapid.Int64Range(1, 30).Draw(rt, "wlat") * int64(time.Millisecond)
-		c.Ops = append(c.Ops, c09sOp{K: "arr", N: k}, c09sOp{K: "adv", D: lat, G: "warm"},
-			c09sOp{K: "done", N: k, P: true})
-		el += lat
-		toB := bd - el%bd
-		c.Ops = append(c.Ops, c09sOp{K: "adv", D: toB, G: "warm-toB"})
-		el += toB
+	for ti, in := range insts {
+		for w := rapid.IntRange(0, 2).Draw(rt, "warm"); w > 0; w-- {
+			k := rapid.IntRange(1, 8).Draw(rt, "wn")
+			lat := rapid.Int64Range(1, 30).Draw(rt, "wlat") * int64(time.Millisecond)
+			c.Ops = append(c.Ops, c09sOp{K: "arr", T: ti, N: k}, c09sOp{K: "adv", D: lat, G: "warm"},
+				c09sOp{K: "done", T: ti, N: k, P: true})
+			el += lat
+			toB := in.bd - el%in.bd
+			c.Ops = append(c.Ops, c09sOp{K: "adv", D: toB, G: "warm-toB"})
+			el += toB
+		}
 	}
 	for i := 0; i < n; i++ {
-		k := rapid.SampledFrom([]string{"cpu", "cpu", "arr", "arr", "arr", "done", "done", "churn", "churn", "adv", "adv", "adv"}).Draw(rt, "k")
-		o := c09sOp{K: k}
+		k := rapid.SampledFrom([]string{"cpu", "cpu", "arr", "arr", "arr", "done", "done", "churn", "churn", "adv", "adv", "adv", "storm", "storm"}).Draw(rt, "k")
+		ti := 0
+		if len(insts) > 1 {
+			ti = rapid.IntRange(0, 1).Draw(rt, "t")
+		}
+		in := insts[ti]
+		if k == "storm" && (!stormy || storms >= 1 || in.bk > 50) {
+			k = "churn"
+		}
+		o := c09sOp{K: k, T: ti}
 		switch k {
 		case "cpu":
-			o.V = rapid.SampledFrom([]int64{0, c.Thr - 1, c.Thr, c.Thr, c.Thr + 1, 1000}).Draw(rt, "v")
+			o.T = 0
+			o.V = rapid.SampledFrom([]int64{0, in.thr - 1, in.thr, in.thr, in.thr + 1, 1000, math.MaxInt64}).Draw(rt, "v")
+			if in.thr == math.MaxInt64 && o.V == in.thr+1 || in.thr == math.MinInt64 {
+				o.V = 0
+			}
 			reading = o.V
 		case "arr":
 			o.N = rapid.IntRange(1, 10).Draw(rt, "n")
-			if reading >= c.Thr {
-				lastOver = el
+			if reading >= in.thr {
+				in.lastOver = el
 			}
 		case "done":
 			o.N = rapid.IntRange(1, 4).Draw(rt, "n")
@@ -388,13 +617,27 @@ func c09sGen(rt *rapid.T) c09sCase {
 		case "churn":
 			o.N = rapid.IntRange(1, 8).Draw(rt, "n")
 			o.P = rapid.IntRange(0, 3).Draw(rt, "p") > 0
-			if reading >= c.Thr {
-				lastOver = el
+			if reading >= in.thr {
+				in.lastOver = el
 			}
+		case "storm":
+			storms++
+			o.N = rapid.SampledFrom([]int{1000, 4097, 4097, 20000}).Draw(rt, "sn")
+			o.D = rapid.SampledFrom([]int64{0, 0, 1000, in.bd / 7, int64(time.Millisecond)}).Draw(rt, "sd")
+			o.P = rapid.Bool().Draw(rt, "p")
+			if reading >= in.thr {
+				in.lastOver = el + o.D*int64(o.N-1)
+			}
+			el += o.D * int64(o.N)
 		case "adv":
+			o.T = 0
+			bd, bk := in.bd, in.bk
 			toB := bd - el%bd
-			o.G = rapid.SampledFrom([]string{"zero", "ms", "ms", "sub", "toB", "toB-1", "toB+1", "k", "cool-1", "cool", "cool", "cool+1", "win", "multi"}).Draw(rt, "g")
-			if o.G[0] == 'c' && (lastOver < 0 || lastOver+c09sCool-1 <= el) {
+			o.G = rapid.SampledFrom([]string{"zero", "ms", "ms", "sub", "toB", "toB-1", "toB+1", "k", "cool-1", "cool", "cool", "cool+1", "win", "multi", "huge"}).Draw(rt, "g")
+			if o.G[0] == 'c' && (in.lastOver < 0 || in.lastOver+c09sCool-1 <= el) {
+				o.G = "ms"
+			}
+			if o.G == "sub" && bd < 2 {
 				o.G = "ms"
 			}
 			switch o.G {
@@ -413,11 +656,11 @@ func c09sGen(rt *rapid.T) c09sCase {
 			case "k":
 				o.D = rapid.Int64Range(1, bk+1).Draw(rt, "ki") * bd
 			case "cool-1":
-				o.D = lastOver + c09sCool - 1 - el
+				o.D = in.lastOver + c09sCool - 1 - el
 			case "cool":
-				o.D = lastOver + c09sCool - el
+				o.D = in.lastOver + c09sCool - el
 			case "cool+1":
-				o.D = lastOver + c09sCool + 1 - el
+				o.D = in.lastOver + c09sCool + 1 - el
 			case "win":
 				o.D = bk*bd + rapid.SampledFrom([]int64{-bd, -1, 0, 1, bd}).Draw(rt, "wd")
 				if o.D < 0 {
@@ -425,6 +668,11 @@ func c09sGen(rt *rapid.T) c09sCase {
 				}
 			case "multi":
 				o.D = rapid.Int64Range(2, 4).Draw(rt, "mw")*bk*bd + rapid.Int64Range(0, bd-1).Draw(rt, "mr")
+			case "huge":
+				o.D = rapid.SampledFrom([]int64{int64(time.Minute), int64(time.Hour), int64(30 * 24 * time.Hour), int64(100 * 365 * 24 * time.Hour), 1 << 31, 1<<32 + 1, 1 << 53}).Draw(rt, "hg")
+			}
+			if o.D > c09sMaxEl-el {
+				o.D, o.G = 0, "zero"
 			}
 			el += o.D
 		}
@@ -434,7 +682,7 @@ func c09sGen(rt *rapid.T) c09sCase {
 }
 
 func TestVerif_C09_shedder(t *testing.T) {
-	kit.Run(t, "C09", "shedder-rules", kit.Opts{Quick: 20000, Thorough: 480000}, c09sGen,
+	kit.Run(t, "C09", "shedder-rules", kit.Opts{Quick: 12000, Thorough: 320000}, c09sGen,
 		func(c c09sCase) kit.Verdict { return c09sInterp(t, c) })
 }
 
